@@ -4,11 +4,25 @@ import fcntl, hashlib, json, os, re, shutil, subprocess, sys, time
 
 VERIF = os.path.dirname(os.path.dirname(os.path.abspath(__file__)))
 REPO = os.environ.get("IVY_REPO", "/repo")
-LEAN = os.path.join(VERIF, "lean")
-BUILD = os.path.join(VERIF, "build")
-OUT = os.path.join(VERIF, "out")
-# evidence committed under /verif/evidence only ever describes /repo; runs against a scratch tree (IVY_REPO) write elsewhere
-EVID = os.path.join(VERIF, "evidence") if REPO == "/repo" else os.path.join(VERIF, "out", "evidence-scratch")
+# Everything a run writes (harness binaries, Lean build incl. the files regenerated from the source, case files, evidence) lives
+# under /verif itself only when the tree under test is /repo. A run against a scratch tree (IVY_REPO=<dir>, used to evaluate
+# seeded changes) gets its own private area, so that it can never disturb -- or be mistaken for -- a run against /repo.
+if REPO == "/repo":
+    SCRATCH_AREA = None
+    LEAN = os.path.join(VERIF, "lean")
+    BUILD = os.path.join(VERIF, "build")
+    OUT = os.path.join(VERIF, "out")
+    EVID = os.path.join(VERIF, "evidence")
+else:
+    SCRATCH_AREA = os.path.join(VERIF, "scratch", hashlib.sha1(os.path.abspath(REPO).encode()).hexdigest()[:10])
+    LEAN = os.path.join(SCRATCH_AREA, "lean")
+    BUILD = os.path.join(SCRATCH_AREA, "build")
+    OUT = os.path.join(SCRATCH_AREA, "out")
+    EVID = os.path.join(SCRATCH_AREA, "evidence")
+    os.makedirs(SCRATCH_AREA, exist_ok=True)
+    # private copy of the Lean project (sources + build cache); refreshed from /verif/lean at the start of every run
+    subprocess.run(["rsync", "-a", "--delete", "--exclude", "Ivy/Generated/", os.path.join(VERIF, "lean") + "/", LEAN + "/"], check=True)
+    os.makedirs(os.path.join(LEAN, "Ivy", "Generated"), exist_ok=True)
 REPLAY_BIN = os.path.join(LEAN, ".lake", "build", "bin", "ivyreplay")
 ALLOWED_AXIOMS = {"propext", "Classical.choice", "Quot.sound"}
 FORBIDDEN = re.compile(r"\b(sorry|admit|native_decide|bv_decide|implemented_by|unsafe)\b|^\s*axiom\s|maxHeartbeats\s+0|@\[extern")
@@ -112,7 +126,7 @@ def audit_axioms(prop, theorems):
 
 
 # further statement files that belong to a property (extensions proved later: pointer/radix-tree refinements, progress)
-EXTRA_PROPS = {"C05": ["C05rat"], "C07": ["C07progress"], "C16": ["C16ptr"]}
+EXTRA_PROPS = {"C05": ["C05rat"], "C07": ["C07progress"], "C16": ["C16ptr"], "C18": ["C18tls"]}
 
 
 def proof_phase(prop):
